@@ -46,7 +46,10 @@ type lfsServer struct {
 	lockMode string // ok | 404 | 501 | 500 | 403
 	lastUploadAction map[string]string
 	pageSize int    // > 0: lock lists and lock verification are paginated (next_cursor = offset of the next page)
-	hashAlgo string // != "": `hash_algo` of every batch response
+	hashAlgo string // != "": `hash_algo` of every batch response (from the hashAlgoFrom-th one on)
+	hashAlgoFrom int    // the first hashAlgoFrom batch responses do not carry it
+	batchAnswers int
+	taintedAt    map[string]int // oid -> index into reqs at which a batch response naming hashAlgo offered it
 	mutate   func(kind string, v map[string]interface{}) // corrupt a response just before it is sent (C18)
 	cursorsHanded map[string]bool
 	hdrStyle   int  // how the server spells the header NAMES of the actions it offers: 0 canonical, 1 lower, 2 upper, 3 mixed
@@ -111,12 +114,31 @@ func (s *lfsServer) handle(w http.ResponseWriter, r *http.Request) {
 	jsonOut := func(code int, v interface{}) {
 		w.Header().Set("Content-Type", "application/vnd.git-lfs+json")
 		w.WriteHeader(code)
-		if s.mutate != nil || (s.hashAlgo != "" && kindOf == "batch") {
+		taint := false
+		if s.hashAlgo != "" && kindOf == "batch" {
+			taint = s.batchAnswers >= s.hashAlgoFrom
+			s.batchAnswers++
+		}
+		if s.mutate != nil || taint {
 			b, _ := json.Marshal(v)
 			var m map[string]interface{}
 			if json.Unmarshal(b, &m) == nil {
-				if s.hashAlgo != "" && kindOf == "batch" {
+				if taint {
 					m["hash_algo"] = s.hashAlgo
+					if s.taintedAt == nil {
+						s.taintedAt = map[string]int{}
+					}
+					if objs, ok := m["objects"].([]interface{}); ok {
+						for _, o := range objs {
+							if om, ok := o.(map[string]interface{}); ok {
+								if oid, ok := om["oid"].(string); ok {
+									if _, seen := s.taintedAt[oid]; !seen {
+										s.taintedAt[oid] = len(s.reqs)
+									}
+								}
+							}
+						}
+					}
 				}
 				if s.mutate != nil {
 					s.mutate(kindOf, m)
